@@ -20,8 +20,8 @@ EXPLANATION = (
     "C14.4 create_dir_all: every Ok of the helper is dominated by a mkdir of the whole path, a failing mkdir is only forgiven for EEXIST, and each ancestor prefix ends at a separator it temporarily replaced by NUL and restores; "
     "C14.5 remove_all descends only into entries whose d_type is Directory and which are not `.`/`..`, removes everything else with unlink_at relative to its own descriptor WITHOUT AT_REMOVEDIR (links are removed, never followed), "
     "removes a sub-directory with AT_REMOVEDIR only after the recursion returned, uses the entry's own name, and remove_dir_all removes the root last; "
-    "C14.6 ReadDir::next advances by exactly the parsed d_reclen, refills only when offset == read_size, hands the whole buffer to getdents, that buffer holds the longest possible entry (19 + 255 + NUL, 8-aligned = 280 bytes) and iteration stops at 0; Dirent::try_from_bytes reads reclen at 16..18, d_type at 18, the name from 19; "
-    "DirEntry::file_type maps each DT_* to the like-named variant; C14.7 fs::write delivers with write_all resolved to the trait's provided loop (the one verified under C15, not an override), File's own read/write make one system call on its descriptor with the caller's whole buffer and return its count, fs::read / fs::read_to_string fill one buffer with the provided read_to_end / read_to_string and return it, File::copy uses one offset for source and destination advanced by exactly the returned count. "
+    "C14.6 ReadDir::next advances by exactly the parsed d_reclen, refills only when offset == read_size, hands the whole buffer to getdents, that buffer holds the longest possible entry (19 + 255 + NUL, 8-aligned = 280 bytes) and iteration stops at 0; Dirent::try_from_bytes reads reclen at 16..18, d_type at 18, the name from 19, copying it byte by byte (byte i to position i) only while the byte compared is not NUL; "
+    "DirEntry::file_type maps each DT_* to the like-named variant; C14.7 fs::write delivers with write_all resolved to the trait's provided loop (the one verified under C15, not an override), File's own read/write make one system call on its descriptor with the caller's whole buffer and return its count, fs::read / fs::read_to_string fill one buffer with the provided read_to_end / read_to_string and return it, File::copy uses one offset for source and destination that starts at 0 and moves only by the count copy_file_range returned, with no other system call in the loop. "
     "NOT decided: the post-conditions as observed on a real file system for all trees and histories, copy_file_range semantics, races with other processes.")
 ASSUMPTIONS = ["reference table = std::fs::OpenOptions semantics", "linux_dirent64 layout (ino 8, off 8, reclen 2, type 1, name)", "bool::then/Option plumbing as in std"]
 
@@ -383,6 +383,43 @@ def run_one(ck, prog):
         ctx = prog.ctx(tb)
         used = {z[2].split("::")[-1] for bb, t in ctx.cfg.calls() for a in ctx.args(bb) for z in walk_deep(a, ctx.prov) if z[0] == "const" and z[2] and "Dirent::" in z[2]}
         ck.ob("C14.6", "dirent-uses-offset-constants", {"LEN_OFFSET", "HEADER_SIZE", "NAME_START"} <= used, fn=tb["path"], detail=f"offset constants used in the parser: {sorted(used)}")
+    # the entry's name is copied byte by byte up to its first NUL: every store into the name array writes position i with the byte read
+    # at position i of the record's name area, under `that byte != 0`, i counting the positions one at a time from 0; nothing else
+    # writes the name (a bulk copy of a length inferred some other way - e.g. a word-at-a-time zero test - does not establish that)
+    if tb is not None:
+        tctx = prog.ctx(tb)
+        names_ = {x["p"]["l"]: x["n"] for x in tb.get("names", []) if isinstance(x.get("p", {}).get("l"), int)}
+        name_locals = {l for l, n_ in names_.items() if (tctx.prov.local_ty.get(l, "") or "").replace(" ", "") == "[u8;256]"}
+        stores, bulk = [], []
+        for b in tb["blocks"]:
+            if b.get("cleanup") or b["id"] not in tctx.cfg.live_blocks():
+                continue
+            for i, st in enumerate(b["stmts"]):
+                if st["k"] == "assign" and st["dst"].get("p") and st["dst"]["l"] in name_locals:
+                    stores.append((b["id"], i, st))
+                if st["k"] == "assign" and st["rv"]["k"] in ("ref", "rawptr") and st["rv"].get("m") not in (False, None, "Const") and st["rv"].get("p", {}).get("l") in name_locals:
+                    bulk.append(b["id"])
+        ck.ob("C14.6", "dirent-name|anchor", len(name_locals) == 1 and len(stores) >= 1, fn=tb["path"], detail=f"name buffers {len(name_locals)}, element stores {len(stores)}")
+        ck.ob("C14.6", "dirent-name|written-only-element-by-element", not bulk, fn=tb["path"], site=tctx.site(bulk[0]) if bulk else None,
+              detail="the name array is handed out mutably (a bulk copy): the number of bytes copied is then decided elsewhere, not by comparing each byte with NUL")
+        for bb_, i_, st in stores:
+            idxp = [pe for pe in st["dst"]["p"] if pe["k"] == "index"]
+            val = strip_casts(tctx.prov.rvalue(st["rv"], (bb_, i_)))
+            idx = strip_casts(tctx.prov.operand({"k": "copy", "p": {"l": idxp[0]["l"]}}, (bb_, i_))) if idxp else None
+            facts_ = panics.dominating_facts(tctx, bb_)
+            nonzero = any(f[0] == "cmp" and f[1] == "Ne" and fold(f[3]) == 0 and canon(strip_casts(f[2])) == canon(val) for f in facts_)
+            same_pos = False
+            if isinstance(idx, tuple) and idx[0] == "field" and str(idx[2]) == "0" and isinstance(val, tuple) and val[0] == "deref":
+                v1 = strip_casts(val[1])      # enumerate: (i, &byte) of one and the same next()
+                same_pos = isinstance(v1, tuple) and v1[0] == "field" and str(v1[2]) == "1" and canon(v1[1]) == canon(idx[1]) and \
+                    mentions(idx, tctx.prov, lambda z: z[0] == "call" and (z[1] or "").endswith("Iterator::enumerate")) and \
+                    not mentions(idx, tctx.prov, lambda z: z[0] == "call" and (z[1] or "").endswith(("::skip", "::step_by", "::rev", "::filter", "::chunks_exact", "::chunks")))
+            elif isinstance(idx, tuple) and idx[0] == "var":
+                defs_ = [strip_casts(d) for d in tctx.prov.expand(idx)]
+                counter = len(defs_) == 2 and any(fold(d) == 0 for d in defs_) and any(isinstance(d, tuple) and d[0] == "bin" and d[1] in ("Add", "AddWithOverflow") and fold(d[3]) == 1 and canon(strip_casts(d[2])) == canon(idx) for d in defs_)
+                same_pos = counter and any(z[0] == "index" and canon(strip_casts(z[2])) == canon(idx) for z in walk_deep(val, tctx.prov, limit=30))
+            ck.ob("C14.6", "dirent-name|byte-i-to-position-i-while-not-nul", nonzero and same_pos, fn=tb["path"], site=tctx.site(bb_),
+                  detail=f"name[i] must receive the record's i-th name byte and only under `byte != 0` (compared byte by byte): value {show(val)[:80]}, index {show(idx)[:80] if idx is not None else None}, nonzero-guard={nonzero}")
     ft = [f for p, f in prog.fns.items() if p.startswith("tiny_std::fs::DirEntry::<") and p.endswith("::file_type")]
     if ck.anchor("C14.6", "DirEntry::file_type", ft):
         ctx = prog.ctx(ft[0])
@@ -503,6 +540,19 @@ def run_one(ck, prog):
                     if isinstance(e, tuple) and e[0] == "bin" and e[1] == "Add" and mentions(e, ctx.prov, lambda z: z[0] == "call" and (z[1] or "").endswith("copy_file_range")):
                         adv = True
         ck.ob("C14.7", "copy-advances-by-returned-count", adv, fn=cp["path"], detail="the copy cursor must advance by exactly the count copy_file_range returned")
+        # ... and by nothing else: the cursor starts at 0 and every other definition of it is `cursor + copied`; the copy finishes
+        # (Ok) only when the cursor has reached the source's size or the kernel reported end of file (0 copied)
+        for bb, t in ctx.cfg.calls(lambda t: (t.get("callee") or "").endswith("copy_file_range::copy_file_range")):
+            cur = strip_casts(ctx.args(bb)[1])
+            if isinstance(cur, tuple) and cur[0] == "var":
+                defs = [strip_casts(d) for d in ctx.prov.expand(cur)]
+                odd = [d for d in defs if not (fold(d) == 0 or (isinstance(d, tuple) and d[0] == "bin" and d[1] in ("Add", "AddWithOverflow") and canon(strip_casts(d[2])) == canon(cur) and
+                                                                   mentions(d[3], ctx.prov, lambda z: z[0] == "call" and (z[1] or "").endswith("copy_file_range"))))]
+                ck.ob("C14.7", "copy-cursor-moves-only-by-what-was-copied", not odd and any(fold(d) == 0 for d in defs), fn=cp["path"], site=ctx.site(bb),
+                      detail=f"the copy cursor is also set to {[show(d) for d in odd[:2]]}: every byte range of the source must pass through copy_file_range (skipping ahead - e.g. over holes - leaves the destination short or with stale bytes)")
+        other_io = sorted({(t.get("callee") or "").split("::")[-1] for bb, t in ctx.cfg.calls(lambda t: (t.get("callee") or "").startswith("rusl::unistd::") and not (t.get("callee") or "").endswith(("copy_file_range::copy_file_range", "stat::stat", "fstat::fstat", "stat::statx")))
+                           if ctx.cfg.in_cycle(bb)})
+        ck.ob("C14.7", "copy-loop-makes-no-other-system-call", not other_io, fn=cp["path"], detail=f"system calls inside the copy loop besides copy_file_range: {other_io}")
 
 
 def check_table(ck, prog, name, fields, ref):
